@@ -628,6 +628,18 @@ impl Doc for Node<Option<Slot>> {
     }
 }
 
+/// Append the comment of a trailing comma (which is not printed) after the
+/// last element `last` of a comma-separated list whose doc so far is `d`.
+fn trailing_comma_doc<'src, T>(
+    d: RcDoc<'src>,
+    last: &Node<T>,
+    context: &mut Context<'_, 'src>,
+) -> Option<RcDoc<'src>> {
+    let comment =
+        get_trailing_comma_comment(last.loc.as_ref().map(|loc| loc.span), &mut context.tokens)?;
+    Some(d.append(add_comment(RcDoc::nil(), comment, RcDoc::nil())))
+}
+
 impl Doc for Node<Option<Primary>> {
     fn to_doc<'src>(&self, context: &mut Context<'_, 'src>) -> Option<RcDoc<'src>> {
         let e = self.as_inner()?;
@@ -678,8 +690,8 @@ impl Doc for Node<Option<Primary>> {
                                 .append(v.to_doc(context)),
                                 v,
                             ))
-                        })?
-                        .0
+                        })
+                        .and_then(|(d, last)| trailing_comma_doc(d, last, context))?
                 },
                 add_comment(
                     RcDoc::text("["),
@@ -721,8 +733,8 @@ impl Doc for Node<Option<Primary>> {
                                 .append(v.to_doc(context)),
                                 v,
                             ))
-                        })?
-                        .0;
+                        })
+                        .and_then(|(d, last)| trailing_comma_doc(d, last, context))?;
                     RcDoc::line().append(inits).append(RcDoc::line()).group()
                 },
                 add_comment(
@@ -793,8 +805,8 @@ impl Doc for Node<Option<MemAccess>> {
                                     arg,
                                 ))
                             },
-                        )?
-                        .0;
+                        )
+                        .and_then(|(d, last)| trailing_comma_doc(d, last, context))?;
                     RcDoc::line_()
                         .append(args)
                         .nest(context.config.indent_width)
@@ -898,7 +910,7 @@ impl Doc for Node<Option<Policy>> {
         let vars = &policy.variables;
         let principal_doc = vars.first()?.to_doc(context)?;
         let action_doc = vars.get(1)?.to_doc(context)?;
-        let resource_doc = vars.get(2)?.to_doc(context)?;
+        let resource_doc = trailing_comma_doc(vars.get(2)?.to_doc(context)?, vars.get(2)?, context)?;
         let vars_doc = if vars.get(0..3)?.iter().all(|v| {
             if let Some(v) = v.as_inner() {
                 v.ineq.is_none() && v.entity_type.is_none()
@@ -976,7 +988,7 @@ impl Doc for Node<Option<Policy>> {
                 .append(vars_doc)
                 .append(add_comment(
                     RcDoc::text(")"),
-                    get_comment_after_end(
+                    get_comment_after_end_skipping_comma(
                         vars.get(2)?.loc.as_ref().map(|loc| loc.span),
                         &mut context.tokens,
                     )?,
